@@ -467,7 +467,24 @@ func (ctrl *Controller[Input, Output]) cleanupOutputs(
 	// clean up tearingDownInputs finalizers, as matching outputs are gone now
 	//
 	// if some output failed to be removed in the loop above, it is removed from the map
-	for _, inMd := range runState.removeInputFinalizers {
+	for outID, inMd := range runState.removeInputFinalizers {
+		// the list of the outputs above might come from the cache which lags behind the controller's own writes,
+		// make sure the output is really gone before releasing the input
+		out, getErr := r.GetUncached(ctx, resource.NewMetadata(outputMetadata.Namespace(), outputMetadata.Type(), outID, resource.VersionUndefined))
+		if getErr == nil {
+			if out.Metadata().Owner() == ctrl.Name() {
+				runState.multiErr = multierror.Append(runState.multiErr, fmt.Errorf("output %s still exists, keeping finalizer on %s", out.Metadata(), inMd))
+			}
+
+			continue
+		}
+
+		if !state.IsNotFoundError(getErr) {
+			runState.multiErr = multierror.Append(runState.multiErr, getErr)
+
+			continue
+		}
+
 		if err = r.RemoveFinalizer(ctx, inMd, ctrl.Name()); err != nil {
 			runState.multiErr = multierror.Append(runState.multiErr, err)
 		} else {
